@@ -9,10 +9,10 @@ VERIF = os.path.dirname(os.path.dirname(os.path.abspath(__file__)))
 
 
 class Unit:
-    def __init__(self, name, files, spec, targets, props, stubs=(), typevars=None, ghost=None, lemmas=(), field_types=None, note='', aspect=None):
+    def __init__(self, name, files, spec, targets, props, stubs=(), typevars=None, ghost=None, lemmas=(), field_types=None, note='', aspect=None, builtins=()):
         self.name, self.files, self.spec, self.targets, self.props = name, list(files), spec, list(targets), list(props)
         self.stubs, self.typevars, self.ghost, self.lemmas = list(stubs), dict(typevars or {}), dict(ghost or {}), list(lemmas)
-        self.field_types = dict(field_types or {}); self.note = note; self.aspect = aspect
+        self.field_types = dict(field_types or {}); self.note = note; self.aspect = aspect; self.builtins = list(builtins)
 
     def paths(self):
         return [os.path.join(PKG, f) for f in self.files] + [os.path.join(VERIF, 'stubs', f) for f in self.stubs]
@@ -29,6 +29,8 @@ class Unit:
         for cls, fs in self.field_types.items():
             for f, t in fs.items(): prog.classes[cls].fields[f] = ty(t); prog.classes[cls].field_defaults.setdefault(f, None)
         spec = E.Spec(os.path.join(VERIF, 'contracts', self.spec))
+        from . import builtins as B
+        for b in self.builtins: spec.builtins[b] = B.REGISTRY[b]
         ex = E.Exec(prog, spec); ex.aspect = self.aspect
         return prog, spec, ex
 
